@@ -29,7 +29,7 @@ CHECKS = {
          "Every public operation naming a system, reactor or entity (run, system event, entity event, insert, mutate, trigger, remove, register existing/new reactor with entity and despawn triggers, revoke) combined with despawns of its target at every point the lazy-program enumeration can place them (before queuing, between queuing and applying, after scheduling, while postponed, during the target's own run), singly and in pairs up to the budget: no panic, nothing runs for a dead target, payloads released, other registrations intact (table cross-check).",
          "Bounded (N<=3 quick, N<=4 thorough).", "DESIGN.md 5 C18"),
  "C10": ("cobweb-mc+loom", "model_checking", "explicit-state BFS to a fixed point (sequential) + loom exhaustive interleavings of the real auto_despawn.rs (concurrent)",
-         "Sequential: every history of prepare / clone / drop / gc / manual despawn / reparent / leaving a cobweb system command on the world's command queue (it then runs in the middle of whichever operation flushes the world, possibly a collection) over 3 entities and <= 4 live clones is explored to the fixed point of the reachable (reference-model state, observed liveness, pending-signal count) set (about 25k states with the parametric burst operation (300 entities; thorough also 3000), depth 13), each transition re-executed on the real AutoDespawner / garbage_collect_entities in a fresh App and compared with a counter model (never despawned while a clone exists, despawned with descendants by the first gc after the last drop, exactly one signal per last drop, gc idempotent). Concurrent: loom explores all interleavings (complete DPOR for three 2-worker scenarios; preemption bound 6 for two larger ones in the thorough tier) of clone drops on worker threads against garbage collection on the main thread, on the real source file compiled against loom.",
+         "Sequential: every history of prepare / clone / drop / gc / manual despawn / reparent / giving one clone to a component of another entity (ownership chain: the clone drops when its owner is despawned, possibly during a collection pass; judged after the following pass) / leaving a cobweb system command on the world's command queue (it then runs in the middle of whichever operation flushes the world, possibly a collection) over 3 entities and <= 4 live clones is explored to the fixed point of the reachable (reference-model state, observed liveness, pending-signal count) set (about 250k states with the parametric burst operation (300 entities; thorough also 3000), depth 13), each transition re-executed on the real AutoDespawner / garbage_collect_entities in a fresh App and compared with a counter model (never despawned while a clone exists, despawned with descendants by the first gc after the last drop, exactly one signal per last drop, gc idempotent). Concurrent: loom explores all interleavings (complete DPOR for three 2-worker scenarios; preemption bound 6 for two larger ones in the thorough tier) of clone drops on worker threads against garbage collection on the main thread, on the real source file compiled against loom.",
          "loom models std::sync::Arc; crossbeam's channel is replaced by a linearizable FIFO on loom primitives; if auto_despawn.rs stops compiling stand-alone the loom leg is skipped (reported in the evidence), never turned into a verdict.", "DESIGN.md 5 C10"),
  "C16": ("cobweb-mc", "model_checking", "explicit-state BFS over histories of the real crate against a reference model",
          "All histories (depth 5 quick, 8 thorough) of add / remove-subset / remove-bundle-spanning-both-entities / fire / despawn / manual run over one WorldReactor and two EntityWorldReactors with two triggers each and two entities, plus a second WorldReactor registered with starting triggers before the plugin is added and a plain reactor added with App::add_reactor, a third with type-wide component triggers a fourth with any_entity_event of the event type the first takes as a broadcast and a fifth with despawn triggers; a reference model predicts the exact multiset of runs, the local data each run exposes (as modified by earlier runs), presence of the local-data component on every entity after every step, and that the three reactor systems are never despawned or duplicated.",
